@@ -49,6 +49,16 @@ def quick():
             groups={"default": (True, VP)},
         )
     )
+    # linked datasets listing the same megacomplexes in another order: same clp labels, other column order
+    MO = {"ma": (("s1", "s2"), False), "mb": (("s3",), False)}
+    c.append(
+        Cfg(
+            "linked_same_labels_other_order",
+            (DS("ds1", T2, (0.0, 1.0), megacomplexes=("ma", "mb"), scale=True), DS("ds2", T3, (1.0, 2.0), megacomplexes=("mb", "ma"), mc_scales=True)),
+            megacomplexes=MO,
+            groups={"default": (True, VP)},
+        )
+    )
     # tolerance / methods
     c.append(Cfg("two_tol_nearest", (DS("ds1", T2, (0.0, 1.0, 2.0)), DS("ds2", T2, (0.25, 1.5, 2.1), scale=True)), groups={"default": (True, VP)}, tol=0.3))
     c.append(Cfg("two_tol_forward", (DS("ds1", T2, (0.0, 1.0, 2.0)), DS("ds2", T2, (-0.25, 0.75, 2.1))), groups={"default": (True, VP)}, tol=0.3, method="forward"))
